@@ -3,7 +3,7 @@ import json
 import re
 
 from .lib import (PLUMBING, callee_allow, callers, closure_args_of_call, const_int, http_error_ctors_on_error_path, operand_local, result_split, status_const_of_ctor, try_edges)
-from .lib_c10 import (HANDLER_CALL, MEMBER_FROM_REQUEST, TOP_FROM_REQUEST, census_owners, closure_site, resolve_place, extraction_region, generic_route_handler, impl_fns,
+from .lib_c10 import (HANDLER_CALL, MEMBER_FROM_REQUEST, TOP_FROM_REQUEST, census_owners, closure_site, extraction_region, generic_route_handler, impl_fns,
                       load_panic_table, norm_id, panic_sites, result_guards, tuple_arity, upvar_fields, upvar_origin, upvar_params)
 
 LEVEL = "other"
@@ -104,18 +104,18 @@ def r1_short_circuit(ctx):
     # the error edge returns the extractor's error (converted), not a fresh one
     ctors = [bb for bb, t in hb.live_calls(ANY_CTOR)] + [b for b, _, s in hb.aggregates(r"^error::HttpError$")]
     ctx.check(R, "generic-handler-builds-no-error", not ctors, "HttpError constructor calls / literals in the generic handler: %d" % len(ctors), hb)
-    # which value each argument is: resolved through unique moves / captured-environment fields first (a handler call moved
-    # into a helper is inlined here, its arguments then travel through the helper's environment), sliced from there
-    ps = hb.slice(resolve_place(hb, ht["args"][2]))
+    # (a handler call moved into a private helper is inlined here by the engine; its arguments then travel through the helper's
+    # parameters / captured environment, which the slices follow field by field)
+    ps = hb.slice(ht["args"][2])
     badp = callee_allow(ps, chain)
     lits = [a for a in ps.atoms if a[0] in ("lit", "const")]
     ctx.check(R, "handler-params-are-the-extracted-value", bool(ps.calls(TOP_FROM_REQUEST)) and not badp and not lits,
               "params argument: derives from from_request's result=%s, other callees=%s, constants=%d" % (bool(ps.calls(TOP_FROM_REQUEST)), sorted(set(b[0] for b in badp)), len(lits)), (hb, hbb))
-    rs = hb.slice(resolve_place(hb, ht["args"][1]))
+    rs = hb.slice(ht["args"][1])
     pr = upvar_params(ds, hb, rs)
     ctx.check(R, "handler-gets-the-same-rqctx", pr == set(rq) and not callee_allow(rs, PLUMBING),
               "rqctx argument of the handler call comes from handle_request params %s (want %s)" % (sorted(pr or []), rq), (hb, hbb))
-    hs = hb.slice(resolve_place(hb, ht["args"][0]))
+    hs = hb.slice(ht["args"][0])
     ctx.check(R, "handler-is-the-registered-function", hs.reads_field("handler") and upvar_params(ds, hb, hs) == {1} and not callee_allow(hs, PLUMBING),
               "receiver of the handler call is self.handler: %s" % hs.reads_field("handler"), (hb, hbb))
 
@@ -513,19 +513,33 @@ def r6_one_step_decode(ctx):
     top = ctx.need_fn(ctx.ds, R, r"^extractor::body::http_request_load_body$")
     f = ctx.ds.body_of(top)
     import re as _re
-    decodes = [(bb, t) for bb, t in f.live_calls(r"serde_path_to_error::deserialize$|^serde_json::from_(slice|str|reader)$|^serde_json::from_value$|serde::Deserialize::deserialize$|^serde_urlencoded::from_(bytes|str|reader)$")
-               if any(_re.match(r"^BodyType/#\d+$", g) for g in t.get("gargs", []))]
-    ctx.check(R, "typed-decode-sites", len(decodes) == 2, "decode calls producing the endpoint's BodyType: %d (JSON and url-encoded)" % len(decodes), f)
+    # the typed decodes are found by data flow, not by the name of a generic parameter: every decode call whose result
+    # flows into the payload of a TypedBody literal (in the body or in a closure it maps over the decode result)
+    DECODE = r"serde_path_to_error::deserialize$|^serde_json::from_(slice|str|reader)$|^serde_json::from_value$|serde::Deserialize::deserialize$|^serde_urlencoded::from_(bytes|str|reader)$"
+    payloads = [f.slice(st["rv"]["ops"][0]) for b, i, st in f.aggregates(r"^extractor::body::TypedBody$") if b in f.reachable(0)]
+    for h in ctx.ds.children(f):
+        if any(True for _ in h.aggregates(r"^extractor::body::TypedBody$")):
+            payloads += [f.slice(t["args"][0]) for bb, t in f.live_calls(r"Result::<T, E>::map$") if any(g is h for g, _ in closure_args_of_call(f, t))]
+    if not payloads:
+        ctx.lost(R, "TypedBody literal fed by http_request_load_body")
+    seen_bb = set()
+    decodes = []
+    for sl in payloads:
+        for c, bb, t in sl.calls(DECODE):
+            if bb not in seen_bb and bb in f.reachable(0):
+                seen_bb.add(bb)
+                decodes.append((bb, t))
+    ctx.check(R, "typed-decode-sites", len(decodes) == 2, "decode calls feeding the TypedBody payload: %d (want one JSON and one url-encoded, each a single step)" % len(decodes), f)
     allowed_src = {
         "json": r"^&('\{erased\} |'[a-z_]+ )?mut serde_json::Deserializer<serde_json::de::(SliceRead|StrRead)<",
         "urlencoded": r"^serde_urlencoded::Deserializer<",
     }
     for bb, t in decodes:
-        ga = t.get("gargs", [])
         callee = t["callee"]
         if callee.endswith("serde_path_to_error::deserialize") or callee.endswith("Deserialize::deserialize"):
-            dty = [g for g in ga if not g.startswith("'") and not _re.match(r"^BodyType/#\d+$", g)]
-            dty = dty[0] if dty else "?"
+            # the type of the deserializer actually handed to the decode
+            al = operand_local(t["args"][0]) if t["args"] else None
+            dty = f.local_ty(al) if al is not None else "?"
             kind = "json" if "serde_json" in dty else ("urlencoded" if "serde_urlencoded" in dty else "other")
             ok = kind in allowed_src and bool(_re.search(allowed_src[kind], dty))
             ctx.check(R, "decoder-source:%s" % (kind if ok else "other"), ok,
